@@ -5,7 +5,7 @@
 (* the real code phase by phase and compares.                                                                      *)
 EXTENDS MC_Select, Json
 Out(s) == [err |-> s.err, nodes |-> s.nodes, geom |-> s.geom, rw |-> s.rw, dtags |-> s.dtags, start |-> s.startOf,
-           was |-> (IF s.err = "" THEN s.was ELSE s.added), handed |-> s.handed]
+           was |-> (IF \A i \in 1..Len(s.added) : s.added[i] = <<>> THEN s.was ELSE s.added), handed |-> s.handed]
 ExportInv == Done => PrintT(<<"CASE", ToJson([c |-> case, x |-> Out(st), n |-> pc - 1])>>)
 MolSpecQ == FMol(4) /\ [][Next]_vars
 MolSpecF == FMol(5) /\ [][Next]_vars
